@@ -350,7 +350,12 @@ impl Receiver {
             match fdt_receiver.state() {
                 fdtreceiver::FDTState::Receiving => return Ok(()),
                 fdtreceiver::FDTState::Complete => {}
-                fdtreceiver::FDTState::Error => return Err(FluteError::new("Fail to decode FDT")),
+                fdtreceiver::FDTState::Error => {
+                    // Forget the instance that failed: the sender repeats it, and a later copy
+                    // must not be ignored until the next cleanup()
+                    self.fdt_receivers.remove(&fdt_instance_id);
+                    return Err(FluteError::new("Fail to decode FDT"));
+                }
                 fdtreceiver::FDTState::Expired => {
                     let expiration = fdt_receiver.get_expiration_time().unwrap_or(now);
                     let server_time = fdt_receiver.get_server_time(now);
